@@ -84,8 +84,10 @@ class BusProtocol (txdbus.protocol.BasicDBusProtocol):
 
         msg.sender = self.uniqueName
 
-        # re-marshal with the sender set and same serial number
-        msg._marshal(False)
+        # re-marshal with the sender set and same serial number; the body is
+        # passed on byte for byte (decoding and encoding it again would
+        # retype the contents of variants)
+        msg._marshal(False, rawBody=msg.rawBody)
 
         self.bus.messageReceived(self, msg)
 
